@@ -231,6 +231,32 @@ amin = min
 amax = max
 
 
+def _pairwise(a, b, is_min):
+    if isinstance(a, Sym) or isinstance(b, Sym):
+        x, y = _toreal(lift(a)), _toreal(lift(b))
+        return SymReal(z3.simplify(z3.If(y < x, y, x) if is_min else z3.If(y > x, y, x)))
+    if _holds_sym(a) or _holds_sym(b):
+        aa, bb = _np.broadcast_arrays(_np.asarray(a, dtype=object), _np.asarray(b, dtype=object))
+        out = _np.empty(aa.shape, dtype=object)
+        for idx in _np.ndindex(aa.shape):
+            out[idx] = _pairwise(aa[idx], bb[idx], is_min)
+        return out.view(SymArray)
+    return (_np.minimum if is_min else _np.maximum)(a, b)
+
+
+def maximum(a, b, *args, **kw):
+    """element-wise maximum as an If-term (no fork)"""
+    if args or kw:
+        return _np.maximum(a, b, *args, **kw)
+    return _pairwise(a, b, False)
+
+
+def minimum(a, b, *args, **kw):
+    if args or kw:
+        return _np.minimum(a, b, *args, **kw)
+    return _pairwise(a, b, True)
+
+
 def empty(shape, dtype=None, *a, **k):
     """np.empty(...) of the default dtype is an object array here, so that symbolic scalars can be stored into it"""
     if dtype in (None, float, _np.float64) or dtype is float64:
